@@ -25,7 +25,21 @@ type Item struct {
 	Color string  `json:"color"`
 	Size  float64 `json:"size"`
 	Note  string  `json:"note,omitempty"`
+	Parts []Part  `json:"parts,omitempty"` // second nesting level
 }
+
+// Part is an element of the array "parts" inside an item.
+type Part struct {
+	Code string `json:"code"`
+}
+
+// Extra is an element of the sibling nested array "extras".
+type Extra struct {
+	Kind string `json:"kind"`
+}
+
+var Codes = []string{"p1", "p2", "p3"}
+var Kinds = []string{"k1", "k2", "k3"}
 
 // Doc is one version of a document. Every version carries a unique Ver string so that any observation is
 // attributable to exactly one write.
@@ -41,6 +55,7 @@ type Doc struct {
 	Flag    bool     `json:"flag"`
 	HasFlag bool     `json:"has_flag"`
 	Items   []Item   `json:"items,omitempty"`
+	Extras  []Extra  `json:"extras,omitempty"`
 	Titles  []string `json:"titles,omitempty"` // multi-valued text field: each element is a phrase
 }
 
@@ -102,7 +117,15 @@ func MakeDoc(id string, ver int, rich bool) Doc {
 			if b.n(2) == 0 {
 				it.Note = Vocab[b.n(len(Vocab))]
 			}
+			np := b.n(3)
+			for j := 0; j < np; j++ {
+				it.Parts = append(it.Parts, Part{Code: Codes[b.n(len(Codes))]})
+			}
 			d.Items = append(d.Items, it)
+		}
+		ne := b.n(3)
+		for i := 0; i < ne; i++ {
+			d.Extras = append(d.Extras, Extra{Kind: Kinds[b.n(len(Kinds))]})
 		}
 		nt := b.n(3)
 		for i := 0; i < nt; i++ {
@@ -148,9 +171,23 @@ func (d Doc) Input() map[string]interface{} {
 			if it.Note != "" {
 				im["note"] = it.Note
 			}
+			if len(it.Parts) > 0 {
+				ps := make([]interface{}, len(it.Parts))
+				for j, p := range it.Parts {
+					ps[j] = map[string]interface{}{"code": p.Code}
+				}
+				im["parts"] = ps
+			}
 			its[i] = im
 		}
 		m["items"] = its
+	}
+	if len(d.Extras) > 0 {
+		es := make([]interface{}, len(d.Extras))
+		for i, e := range d.Extras {
+			es[i] = map[string]interface{}{"kind": e.Kind}
+		}
+		m["extras"] = es
 	}
 	if len(d.Titles) > 0 {
 		ts := make([]interface{}, len(d.Titles))
@@ -207,6 +244,12 @@ func (d Doc) ExpectStored() Stored {
 		if it.Note != "" {
 			s["items.note"] = append(s["items.note"], it.Note)
 		}
+		for _, p := range it.Parts {
+			s["items.parts.code"] = append(s["items.parts.code"], p.Code)
+		}
+	}
+	for _, e := range d.Extras {
+		s["extras.kind"] = append(s["extras.kind"], e.Kind)
 	}
 	if len(d.Titles) > 0 {
 		s["titles"] = append([]string(nil), d.Titles...)
@@ -297,16 +340,23 @@ func Mapping(nested bool) mapping.IndexMapping {
 	bf := bleve.NewBooleanFieldMapping()
 	bf.Store, bf.IncludeInAll, bf.DocValues = true, false, true
 	dm.AddFieldMappingsAt("flag", bf)
-	var items *mapping.DocumentMapping
-	if nested {
-		items = bleve.NewNestedDocumentStaticMapping()
-	} else {
-		items = bleve.NewDocumentStaticMapping()
+	sub := func() *mapping.DocumentMapping {
+		if nested {
+			return bleve.NewNestedDocumentStaticMapping()
+		}
+		return bleve.NewDocumentStaticMapping()
 	}
+	items := sub()
 	items.AddFieldMappingsAt("color", kw())
 	items.AddFieldMappingsAt("size", nm())
 	items.AddFieldMappingsAt("note", tx())
+	parts := sub() // second nesting level
+	parts.AddFieldMappingsAt("code", kw())
+	items.AddSubDocumentMapping("parts", parts)
 	dm.AddSubDocumentMapping("items", items)
+	extras := sub() // sibling array
+	extras.AddFieldMappingsAt("kind", kw())
+	dm.AddSubDocumentMapping("extras", extras)
 	im.DefaultMapping = dm
 	return im
 }
